@@ -381,16 +381,21 @@ fn load_cache(p: &Plain, a: &Address) -> CacheAccount {
 fn empty_info() -> AccountInfo { AccountInfo { balance: U256::ZERO, nonce: 0, code_hash: KECCAK_EMPTY, code: None } }
 
 /// transitions produced by the real CacheAccount methods, chosen so that an EVM could have caused them
-fn gen_cache(rng: &mut Rng, thorough: bool) -> Hist {
+/// `churn`: two addresses only and mostly selfdestruct / re-creation with storage, several
+/// transactions per merged group: accounts that are destroyed, re-created and destroyed again
+/// within and across groups (DestroyedChanged / DestroyedAgain paths of update_and_create_revert,
+/// extend over an account destroyed in both halves).
+fn gen_cache(rng: &mut Rng, thorough: bool, churn: bool) -> Hist {
     let state_clear = rng.chance(3, 4);
     let direct = rng.chance(1, 2);
     let retain = rng.chance(4, 5);
     let mut tags = vec![format!("state_clear:{}", state_clear), format!("feed:{}", if direct { "TransitionState+BundleState" } else { "State::apply_transition" })];
     let codes: Vec<Bytecode> = (0..3u8).map(|i| Bytecode::new_raw(Bytes::from(vec![0x60, i, 0x00]))).collect();
-    let addrs: Vec<Address> = (1..=5u64).map(addr).collect();
+    let addrs: Vec<Address> = (1..=if churn { 2 } else { 5u64 }).map(addr).collect();
+    if churn { tags.push("churn".into()); }
     let mut p0 = Plain::default();
     for a in &addrs {
-        match rng.below(6) {
+        match if churn { *rng.pick(&[0u64, 3, 4, 4]) } else { rng.below(6) } {
             0 | 1 => {}
             2 => p0.set_info(*a, &AccountInfo { balance: U256::from(rng.range(1, 9)), nonce: 0, code_hash: KECCAK_EMPTY, code: None }),
             3 => p0.set_info(*a, &AccountInfo { balance: U256::from(rng.below(9)), nonce: rng.range(1, 3), code_hash: KECCAK_EMPTY, code: None }),
@@ -402,8 +407,8 @@ fn gen_cache(rng: &mut Rng, thorough: bool) -> Hist {
     }
     let mut cur = p0.clone();
     let mut cache: BTreeMap<Address, CacheAccount> = BTreeMap::new();
-    let n_groups = rng.range(1, if thorough { 7 } else { 5 }) as usize;
-    let sched = rng.below(3);
+    let n_groups = if churn { rng.range(2, 6) } else { rng.range(1, if thorough { 7 } else { 5 }) } as usize;
+    let sched = if churn { 1 + rng.below(2) } else { rng.below(3) };
     let mut groups = vec![]; let mut refs = vec![]; let mut ts_obs = vec![]; let mut bundles = vec![];
     let mut panicked = false;
     let mut state = State::builder().with_bundle_update().build();
@@ -438,7 +443,7 @@ fn gen_cache(rng: &mut Rng, thorough: bool) -> Hist {
                     }
                     m
                 };
-                let t: Option<TransitionAccount> = match rng.below(10) {
+                let t: Option<TransitionAccount> = match if churn { *rng.pick(&[0u64, 3, 3, 4, 5, 5, 6, 3, 5, 8]) } else { rng.below(10) } {
                     0 | 1 | 2 => { // change
                         let mut ni = ca.account_info().unwrap_or_else(empty_info);
                         match rng.below(4) { 0 => ni.balance = ni.balance.saturating_add(U256::from(rng.range(1, 5))),
@@ -627,7 +632,7 @@ pub fn run(o: &Opts, which: u32) {
     let mut w = CaseWriter::new(o, &module, 40);
     let n = if o.thorough() { 4000 } else { 400 };
     for i in 0..n {
-        let h = match i % 10 { 0 | 1 | 2 => gen_evm(&mut rng, o.thorough()), 9 => gen_free(&mut rng), _ => gen_cache(&mut rng, o.thorough()) };
+        let h = match i % 10 { 0 | 1 | 2 => gen_evm(&mut rng, o.thorough()), 9 => gen_free(&mut rng), 7 | 8 => gen_cache(&mut rng, o.thorough(), true), _ => gen_cache(&mut rng, o.thorough(), false) };
         let mut sub = Rng::new(o.seed ^ (i as u64) << 8 ^ 0x18);
         let case = match which { 16 => emit16(&h), 17 => emit17(&h), _ => emit18(&h, &mut sub) };
         let ntx: usize = h.groups.iter().map(|g| g.iter().map(|t| t.len()).sum::<usize>()).sum();
@@ -642,5 +647,5 @@ pub fn run(o: &Opts, which: u32) {
         let tr: Vec<&str> = tags.iter().map(|s| s.as_str()).collect();
         w.push(case, human, ntx >= 2, &tr);
     }
-    w.finish("histories of account transitions: 30% real Evm transactions on State<CacheDB<EmptyDB>> (transfers, touches, SSTOREs incl. back to original / zero, SELFDESTRUCT to self/others/non-existing, CREATE2 re-creation at the same address, CREATE, increment_balances, drain_balances; TANGERINE..CANCUN), 60% transitions produced by the real CacheAccount methods (all reachable status pairs, with and without state clear) fed through State::apply_transition or TransitionState/BundleState directly, 10% out-of-contract transitions (arbitrary status pairs, model = code only); merge schedules per tx / every 3 / random; both retentions; non-trivial = at least 2 transitions; distinct = distinct full case terms");
+    w.finish("histories of account transitions: 30% real Evm transactions on State<CacheDB<EmptyDB>> (transfers, touches, SSTOREs incl. back to original / zero, SELFDESTRUCT to self/others/non-existing, CREATE2 re-creation at the same address, CREATE, increment_balances, drain_balances; TANGERINE..CANCUN), 60% transitions produced by the real CacheAccount methods (all reachable status pairs, with and without state clear; a third of them as 'churn' histories: two addresses, mostly selfdestruct / re-creation with storage, several transactions per merged group) fed through State::apply_transition or TransitionState/BundleState directly, 10% out-of-contract transitions (arbitrary status pairs, model = code only); merge schedules per tx / every 3 / random; both retentions; non-trivial = at least 2 transitions; distinct = distinct full case terms");
 }
